@@ -331,7 +331,15 @@ impl Worker {
                             let dir = if sub { root.open_dir("SUB").ok() } else { Some(root) };
                             if let Some(dir) = dir {
                                 for g in got.iter().take(3) {
-                                    if let Some(l) = &g.long {
+                                    // entries without a long name are looked up by their 8.3 name (bytes >= 0x80 spelled U+FFFD,
+                                    // the documented decoding of the default OEM converter)
+                                    let by_short: String = g.short.iter().map(|b| if *b < 0x80 { *b as char } else { '\u{FFFD}' }).collect();
+                                    let l16: Vec<u16> = match &g.long {
+                                        Some(l) => l.clone(),
+                                        None => by_short.encode_utf16().collect(),
+                                    };
+                                    {
+                                        let l = &l16;
                                         let name = String::from_utf16_lossy(l);
                                         if !name.is_empty() && !name.contains('/') && name.len() <= 255 {
                                             let found = match catch_unwind(AssertUnwindSafe(|| dir.open_file(&name).is_ok() || dir.open_dir(&name).is_ok())) {
